@@ -5,6 +5,7 @@ from cfg import cfg_of
 from flow import Taint, Tracker, callee_matches, field_reads, op_local, prep, backward, backward_calls
 from rules import CallGuard, CallSink, CmpGuard, RetSink, AggSink, BlockSink, compare_sites
 from props.C04 import call_results, agg_field_operands
+from rules import PL
 from props.C12 import chunk_rules
 
 META = {
@@ -245,6 +246,25 @@ def run(R):
                     okf = False
                     R.viol("C14.fetch.all", "info-skipped", "an entry of data_map.infos() can be skipped without a download task (the loop comes round without pushing)", fb, t["l"])
         R.inst("C14.fetch.all", "K5 must-follow", "every ChunkInfo yields a download task and every downloaded chunk reaches decrypt_full_set", len(proc) + len(dec), okf)
+    # (4b) what is self-encrypted is the caller's bytes unchanged (a too-small input reaches the library as it is and is refused there),
+    #      every task handed to the concurrency helper is driven, and fetched chunks are authenticated by chunk_get (rule of C15)
+    enc = R.body("C14.input.whole", "autonomi::self_encryption::encrypt")
+    if enc is not None:
+        prep(enc)
+        se = [b for b in enc.blocks if b["term"]["k"] == "call" and not b["cleanup"] and callee_matches(b["term"], ["self_encryption::encrypt"])]
+        from flow import must_be_copy_of
+        oki = bool(se) and all(must_be_copy_of(enc, op_local(b["term"]["args"][0]), PL(enc, 0)) for b in se)
+        if not oki:
+            R.viol("C14.input.whole", "input-rewritten", "autonomi's encrypt does not hand the caller's bytes unchanged to self_encryption::encrypt (padding / truncating changes what is stored and hides the too-small error)", enc, enc.lines[0])
+        R.inst("C14.input.whole", "K6 flows-to", "self_encryption::encrypt(data) receives the input bytes themselves", len(se), oki)
+    pt = R.body("C14.tasks.all", "autonomi::client::utils::process_tasks_with_max_concurrency::{closure#0}")
+    if pt is not None:
+        R.every_iteration("C14.tasks.all", pt, lambda names, fields: True,
+                          CallSink("*FuturesUnordered<Fut>::push", "futures_util::stream::futures_unordered::FuturesUnordered::push"),
+                          "every task handed to process_tasks_with_max_concurrency is started", "the tasks")
+    from props.C15 import chunk_get_rule
+    chunk_get_rule(R, "C14.fetch")
+    fetched_chunks_rule(R, "C14")
     # (4) index pairing
     fm = [b for b in F.item(CL + "fetch_from_data_map") if b.kind == "closure" and any(c["ncallee"] == "autonomi::client::data::public::<impl autonomi::client::Client>::chunk_get" for c in b.calls)]
     ok = False
@@ -276,3 +296,23 @@ def run(R):
     if en is not None:
         R.gate("C14.small", en, RetSink("Ok"), [[CallGuard([ENC], ("Ok",), "self_encryption::encrypt is Ok")], [CallGuard([SE + "pack_data_map"], ("Ok",), "pack_data_map is Ok")]],
                descr="encrypt returns Ok only if self-encryption and data-map packing succeeded (too-small input ⇒ error)")
+
+
+def fetched_chunks_rule(R, pfx="C14"):
+    """Every EncryptedChunk handed to decrypt_full_set is built from a chunk that chunk_get returned as Ok (i.e. address-checked): no
+    chunk is taken from an error value or from anywhere else (shared with C15)."""
+    F = R.F
+    CG_ = "autonomi::client::data::public::<impl autonomi::client::Client>::chunk_get"
+    n, ok = 0, True
+    for b in F.item(CL + "fetch_from_data_map"):
+        prep(b)
+        sink = AggSink("*EncryptedChunk")
+        blocks = sink.blocks(b)
+        if not blocks:
+            continue
+        n += len(blocks)
+        ok = R.gate(pfx + ".chunks.checked", b, sink, [[CallGuard([CG_], ("Ok",), "chunk_get(info.dst_hash) is Ok")]],
+                    descr="an EncryptedChunk is built only from a chunk that chunk_get accepted") and ok
+    if n == 0:
+        R.viol(pfx + ".chunks.checked", "anchor-missing:EncryptedChunk", "no EncryptedChunk construction found in fetch_from_data_map")
+        R.inst(pfx + ".chunks.checked", "K4 gate", "an EncryptedChunk is built only from a chunk that chunk_get accepted", 0, False)
